@@ -86,6 +86,10 @@ type respClient struct {
 	// SendAfter > 0: when the drain is over the client sends one more message of about that many bytes (what
 	// the response left behind - packet size, queue state - is used by the next request).
 	SendAfter int
+	// AnswerAfter: the peer answers the request sent after the drain (SendAfter) with this valid response and the
+	// client reads it: what the first response left behind in the channel (receive queue, last format, end-of-
+	// message state) meets well-formed data. Only safety is judged (AfterRecs is informational).
+	AnswerAfter []byte
 	// QueueBefore > 0: after its request the client queues that many bytes of a next message (not sent) before it
 	// reads the response.
 	QueueBefore int
@@ -103,15 +107,16 @@ type respClient struct {
 }
 
 type respResult struct {
-	Recs     []PkgRec
-	Out      *simrt.Outcome
-	ConnErr  string
-	SendErr  string
-	Wire     []byte
-	FailedAt time.Duration // simulated time at which the terminal condition was set
-	TermSet  bool
-	Sim      *simrt.Sim
-	AfterErr string
+	Recs      []PkgRec
+	Out       *simrt.Outcome
+	ConnErr   string
+	SendErr   string
+	Wire      []byte
+	FailedAt  time.Duration // simulated time at which the terminal condition was set
+	TermSet   bool
+	Sim       *simrt.Sim
+	AfterRecs int
+	AfterErr  string
 	// Changed lists packages whose rendering at the end of the run differs from the one taken when they were
 	// received (a delivered package that aliases a buffer the library goes on using).
 	Changed   []string
@@ -218,6 +223,8 @@ func runResp(cfg simrt.Config, d respDelivery, c respClient) *respResult {
 			responded = true
 			replyChannel = m.Channel
 			deliver()
+		} else if len(c.AnswerAfter) > 0 {
+			p.SendResponse(m.Channel, c.AnswerAfter, nil)
 		}
 	}
 	s.Net.Setup = func(cn *simrt.Conn) {
@@ -400,6 +407,22 @@ func runResp(cfg simrt.Config, d respDelivery, c respClient) *respResult {
 			defer cancel3()
 			if err := ch.SendPackage(ctx3, &tds.LanguagePackage{Cmd: strings.Repeat("x", c.SendAfter)}); err != nil {
 				res.AfterErr = err.Error()
+			} else if len(c.AnswerAfter) > 0 {
+				for n := 0; n < 20; n++ {
+					ctx4, cancel4 := simrt.WithTimeout(context.Background(), 2*time.Second)
+					pkg, err := ch.NextPackage(ctx4, true)
+					cancel4()
+					if err != nil {
+						break
+					}
+					res.AfterRecs++
+					if c.Render {
+						renderPkg(pkg)
+					}
+					if d, ok := pkg.(*tds.DonePackage); ok && d.Status == tds.TDS_DONE_FINAL {
+						break
+					}
+				}
 			}
 		}
 	})
